@@ -2,6 +2,7 @@
 // C17: binary results are valid definite-length blocks in the requested byte order; over-length data is refused;
 //      a block counts as one item only once it is complete.
 // Handlers are scripts carried by the plan; every item's bytes are predicted by an independent encoder.
+#include <memory>
 #include <sys/mman.h>
 
 #include "../world.h"
@@ -11,7 +12,7 @@ namespace {
 template <class T> T pickv(std::initializer_list<T> l, Rng &r) { return *(l.begin() + r.below(l.size())); }
 
 enum ItemKind {
-    IT_I32 = 0, IT_U32B, IT_I64, IT_U64B, IT_BOOL, IT_MNEM, IT_TEXT, IT_DOUBLE, IT_FLOAT, IT_BLOCK, IT_SBLOCK, IT_ARRAY, IT_HEADER, IT_SMALL, IT_PUSH, IT_STRAY, IT_BIG, IT_GIANT, IT_NKINDS
+    IT_I32 = 0, IT_U32B, IT_I64, IT_U64B, IT_BOOL, IT_MNEM, IT_TEXT, IT_DOUBLE, IT_FLOAT, IT_BLOCK, IT_SBLOCK, IT_ARRAY, IT_HEADER, IT_SMALL, IT_PUSH, IT_STRAY, IT_BIG, IT_GIANT, IT_NESTED, IT_NKINDS
 };
 enum ElemType { E_I8 = 0, E_U8, E_I16, E_U16, E_I32, E_U32, E_I64, E_U64, E_F32, E_F64, E_NTYPES };
 const size_t ELEM_SIZE[E_NTYPES] = {1, 1, 2, 2, 4, 4, 8, 8, 4, 8};
@@ -133,6 +134,7 @@ struct Run {
     bool block_open = false;
     std::string payload;       // expected unit payload (items joined as the model says)
     bool unit_pushed = false;
+    std::unique_ptr<World> inner;   // a second, independent instrument context (a module behind this mainframe), served from inside handlers
     Run(World &w_, Verdict &v_, bool c) : w(w_), v(v_), c17(c) {}
 
     // compare what one API call wrote with the model's expectation for that item
@@ -373,6 +375,29 @@ struct Run {
                     block_open = false;
                     break;
                 }
+                case IT_NESTED: {
+                    // the handler relays a message to another context and reads its answer; that context frames its own response
+                    if (!inner) {
+                        WorldCfg ic;
+                        ic.with_flush = w.cfg.with_flush;
+                        inner.reset(new World(ic));
+                        inner->add_standard_commands();
+                        inner->seal();
+                    }
+                    static const char *relay[][2] = {{"*OPC?;*OPC?\n", "1;1\r\n"}, {"*OPC?\r\n", "1\r\n"}, {"XYZ;*OPC?\n", "1\r\n"}, {"*OPC\n", ""}};
+                    size_t k = (size_t) clampl(it.arg(1), 0, 3);
+                    size_t o0 = inner->out.size();
+                    int f0 = inner->flushes;
+                    inner->input(relay[k][0]);
+                    std::string got = inner->out.substr(o0);
+                    int fl = inner->flushes - f0;
+                    int want_fl = (relay[k][1][0] && inner->cfg.with_flush) ? 1 : 0;
+                    COUNT("probe_second_context_served_inside_handler");
+                    if (!v.violated && (got != relay[k][1] || fl != want_fl))
+                        v.fail("framing", "nested-context", fmt("message \"%s\" relayed to a second context from inside a handler wrote \"%s\" with %d flush(es), expected \"%s\" with %d",
+                                                                 c_escape(relay[k][0]).c_str(), c_escape(got).c_str(), fl, c_escape(relay[k][1]).c_str(), want_fl));
+                    break;
+                }
                 case IT_STRAY: {
                     // a data call on whatever block state the previous calls left: continues an open block, otherwise it is beyond the announced length
                     std::string piece = it.s.substr(0, 64);
@@ -409,7 +434,12 @@ struct Run {
                     uint64_t seed = (uint64_t) it.arg(4);
                     size_t sz = ELEM_SIZE[et];
                     std::vector<uint64_t> bits(cnt);
-                    char *arr = (char *) malloc(cnt * sz);   // exact size, native layout
+                    // exact size at the end, native layout; the array may start `skew` elements into the allocation, so that
+                    // its address is aligned for its element type only (a window into a larger sample buffer)
+                    size_t skew = (size_t) clampl(it.arg(5), 0, 7);
+                    char *base = (char *) malloc((cnt + skew) * sz);
+                    char *arr = base + skew * sz;
+                    if (skew) COUNT("probe_array_source_not_16_byte_aligned");
                     for (size_t j = 0; j < cnt; j++) {
                         bits[j] = elem_bits(seed, j, et);
                         memcpy(arr + j * sz, &bits[j], sz);   // little-endian host: low bytes first (recorded as an assumption)
@@ -427,7 +457,7 @@ struct Run {
                         case E_F32: SCPI_ResultArrayFloat(c, (float *) arr, cnt, f); break;
                         default: SCPI_ResultArrayDouble(c, (double *) arr, cnt, f); break;
                     }
-                    free(arr);
+                    free(base);
                     if (fmtv == 0) {
                         // ASCII: every element is an item of its own
                         std::string delta = w.out.substr(ob);
@@ -785,7 +815,7 @@ void gen_item(Rng &r, Plan &p, bool c17, bool misuse) {
             long f = c17 ? r.range(1, 2) : r.range(0, 2);
             if (c17 && r.chance(1, 8)) f = 0;
             if (!c17 && f == 0 && cnt > 6) cnt = r.range(0, 6);
-            p.ops.push_back(Op("it", {kind, (long) r.below(E_NTYPES), f, cnt, (long) r.below(1000000)}));
+            p.ops.push_back(Op("it", {kind, (long) r.below(E_NTYPES), f, cnt, (long) r.below(1000000), r.chance(1, 3) ? r.range(1, 7) : 0}));
             break;
         }
         case IT_HEADER: {
@@ -820,6 +850,7 @@ void generate_output(Rng &r, const GenOpts &g, Plan &p, bool c17) {
         long push_at = k == 4 ? r.range(0, ni) : -1;
         for (long j = 0; j <= ni; j++) {
             if (j == push_at) p.ops.push_back(Op("it", {IT_PUSH, -(long) r.range(200, 299)}));
+            if (!c17 && r.chance(1, 25)) p.ops.push_back(Op("it", {IT_NESTED, (long) r.below(4)}));
             if (j < ni) gen_item(r, p, c17, c17 && r.chance(1, 3));
             if (j < ni && c17 && r.chance(1, 5)) p.ops.push_back(Op("it", {IT_STRAY}, rand_bytes(r, r.range(1, 6))));
             if (j < ni && c17 && r.chance(1, 12)) {
@@ -882,7 +913,7 @@ const Property C06 = {
     gen_c06,
     exec_c06,
     {"probe_query_succeeds_with_zero_items", "probe_query_fails_after_emitting", "fault_handler_returns_err", "fault_error_inside_handler", "fault_write_short_or_failed",
-     "fault_flush_failed", "probe_multi_unit_message", "probe_message_after_history"},
+     "fault_flush_failed", "probe_multi_unit_message", "probe_message_after_history", "probe_second_context_served_inside_handler"},
     "1..4 messages of 1..6 units over 1..7 scripted handlers (queries emitting 0..4 items of every result type and succeeding / failing silently / emitting then failing / "
     "raising an error mid-unit; commands), any segmentation, write/flush faults; captured bytes and flush count must equal one member of the acceptable set built from "
     "independently encoded item payloads (table A.2). distinct_nontrivial = distinct canonical trace hashes.",
@@ -894,7 +925,7 @@ const Property C17 = {
     gen_c17,
     exec_c17,
     {"arrays_normal", "arrays_swapped", "arrays_ascii", "blocks_streamed", "probe_zero_length_piece", "fault_overlength_block_data", "probe_block_left_incomplete",
-     "probe_empty_binary_array", "probe_three_digit_block_length", "probe_header_nine_digits", "block_headers_only", "probe_data_after_complete_block", "probe_block_of_64k_or_more", "probe_array_of_nearly_1e9_bytes"},
+     "probe_empty_binary_array", "probe_three_digit_block_length", "probe_header_nine_digits", "block_headers_only", "probe_data_after_complete_block", "probe_block_of_64k_or_more", "probe_array_of_nearly_1e9_bytes", "probe_array_source_not_16_byte_aligned"},
     "handler scripts emitting arrays of all ten element types in NORMAL/SWAPPED/ASCII (0..300 elements, boundary values), blocks one-shot and streamed with seeded piece "
     "sizes incl. zero-length pieces, incomplete and over-length data at any point, header-only calls up to 10^9-1, items after complete/incomplete blocks; every API call's "
     "bytes are compared with an independent shift-based encoder, over-length data must be refused. distinct_nontrivial = distinct canonical trace hashes.",
